@@ -55,6 +55,11 @@ def gen_vector(d, force_marker=None):
             pool = MARK
             letter = d.choice('rg')
         m = d.choice(pool) if d.chance(0.75) else '-' + ''.join(d.perm('Cp')[:d.int(1, 2)]) + letter
+        if d.chance(0.08):
+            # a cluster with a mode letter that is not its last letter (-rg, -gCr, -Crg): refused whichever letter comes last
+            inner = d.perm('Cp')[:d.int(0, 2)]
+            inner.insert(d.int(0, len(inner)), d.choice('rg'))
+            m = '-' + ''.join(inner) + letter
         words.append(m)
         for _ in range(d.int(0, 6)):
             words.append(d.choice(AFTER) if d.chance(0.8) else d.text(PRINTABLE, 0, 8))
